@@ -258,24 +258,35 @@ def run_history(case, res):
         # all pilots of a bulk submission at once) - unless the message made
         # the handler raise (contradictory finals are documented to)
         named = [p for p, _ in msg]
-        for p, tgt in msg:
-            if p not in pilots or named.count(p) != 1 or exc is not None:
+
+        def model(b, tgt):
+            if b in FINAL_STATES:
+                return {b} | ({tgt} if tgt in FINAL_STATES else set())
+            if tgt in (rps.FAILED, rps.CANCELED) or _PV[tgt] >= _PV[b]:
+                return {tgt}
+            return {b}
+
+        for p in dict.fromkeys(named):
+            if p not in pilots or exc is not None:
                 continue
             res.count('bulk_notifications_checked' if len(msg) > 1
                       else 'single_notifications_checked')
+            if named.count(p) > 1:
+                res.count('pilots_named_twice_in_a_message')
             b = before[p]
-            if b in FINAL_STATES:
-                exp = [b] + ([tgt] if tgt in FINAL_STATES else [])
-            elif tgt in (rps.FAILED, rps.CANCELED) or _PV[tgt] >= _PV[b]:
-                exp = [tgt]
-            else:
-                exp = [b]
+            # a pilot which is named several times gets its entries applied
+            # in message order
+            exp = {b}
+            for q, tgt in msg:
+                if q == p:
+                    exp = set().union(*[model(x, tgt) for x in exp])
             if pilots[p].state not in exp:
                 mech = 'state-mismatch' if len(msg) == 1 else \
                        'bulk-notification-lost'
                 res.violation(mech, '%s: %s --%s--> %s, model %s (message '
-                              'names %d pilots)' % (p, b, tgt, pilots[p].state,
-                                                    exp, len(msg)), ctx)
+                              'has %d entries)' % (p, b,
+                              [t for q, t in msg if q == p], pilots[p].state,
+                              sorted(exp), len(msg)), ctx)
                 break
 
         for p in pilots:
